@@ -376,6 +376,24 @@ def b_chunks(ctx):
                         if not (0 <= cn < len(sizes_) and 0 <= li < sizes_[cn] and borders[cn] + li == gidx and chs[cn][li] == s[gidx]):
                             ctx.fail('C01:chunk_local_index:streaming', f'{det}: after {pos} samples in chunks {sizes_} global index {gidx} of {list(s)} is mapped to chunk {cn} position {li}', repro_chunks(det, s, sizes_))
                             break
+        # the chunks delivered through ONE buffer that the caller refills (what a block-wise reader does): the detector must not keep a view of it
+        # (added after seed C01-f stopped copying the first chunk)
+        if w % 8 == 1:
+            import numpy as np
+            from contracts.rainflow_bounded import make
+            for det in DETECTORS:
+                ref1, _, _ = run(det, [s])
+                d_, rec_ = make(det)
+                buf = np.zeros(4)
+                for p_ in range(0, len(s), 4):
+                    blk = s[p_:p_ + 4]
+                    buf[:len(blk)] = blk
+                    d_.process(buf[:len(blk)])
+                got1 = (list(map(float, rec_.values_from)), list(map(float, rec_.values_to)), list(map(float, d_.residuals)))
+                ctx.case(True)
+                if got1 != (ref1['from'], ref1['to'], ref1['residuals']):
+                    ctx.fail(f'C01:chunking:reused-buffer:{det}', f'{det} detector, signal {list(s)} streamed in blocks of 4 through one re-used buffer: {got1}, in one piece {(ref1["from"], ref1["to"], ref1["residuals"])}',
+                             {'signal': list(s)})
         cuts = sorted(rng.sample(range(1, len(s)), rng.randrange(2, 5)))
         parts = [[c, len(s) - c] for c in range(1, len(s))] + [[b_ - a_ for a_, b_ in zip([0] + cuts, cuts + [len(s)])]]
         for det in DETECTORS:
